@@ -226,6 +226,14 @@ class Answerer(object):
             return yes if p.hsa_spouse else no
         if base in ("ira_exception2_you", "ira_exception2_spouse"):
             return yes if p.f8606 else no
+        if fbase == "1040_recovery_rebate_credit_wkst":
+            # (2021) mostly both have a number; sometimes only one of a couple, with or without the armed-forces exception
+            if base == "ssn_before_due_date":
+                return yes if r.random() < 0.6 else no
+            if base == "armed_forces":
+                return yes if r.random() < 0.3 else no
+            if base == "either_ssn_before_due_date":
+                return yes if r.random() < 0.7 else no
         if fbase == "8606":
             if base in ("part_1_needed", "distribution_or_roth_conversion"):
                 return yes if r.random() < 0.7 else no
